@@ -392,11 +392,11 @@ PROPS = {
     "C07": {"theorems": ["C07_cycles_detected", "C07_only_cycle_errors", "C07_terminates", "C07_machine_refines_dfs", "C07_solve_terminates", "C07_checker_graph_covers_planner_graph"],
             "engines": [eng_synth, eng_prog],
             "assumptions": [SYNTH_NOTE, "wall-clock behaviour is runtime, sampled on lattices/chains only"]},
-    "C08": {"theorems": ["C05_never_picks"], "engines": [eng_synth, eng_prog], "assumptions": [SYNTH_NOTE]},
+    "C08": {"theorems": ["C08_unused_reported_exactly", "C08_called_is_used", "C08_used_have_source"], "engines": [eng_synth, eng_prog], "assumptions": [SYNTH_NOTE]},
     "C09": {"theorems": ["C09_results", "C09_rejects", "C09_identical_types_rejected"], "engines": [eng_funcoutput, eng_prog],
             "assumptions": ["result kinds are abstracted to what funcOutput can distinguish (identity with error / func())"]},
     "C10": {"theorems": ["C10_phase_order_independent", "C05_never_picks"], "engines": [eng_synth, eng_prog], "assumptions": [SYNTH_NOTE]},
-    "C11": {"theorems": ["C11_colocated"], "engines": [eng_synth, eng_prog, eng_forms], "assumptions": [SYNTH_NOTE, "Go's method-set rule (types.Implements) is go/types' and is not modelled"]},
+    "C11": {"theorems": ["C11_colocated", "C11_shared_instance", "C02_wiring"], "engines": [eng_synth, eng_prog, eng_forms], "assumptions": [SYNTH_NOTE, "Go's method-set rule (types.Implements) is go/types' and is not modelled"]},
     "C12": {"theorems": ["C12_check_field_sound", "C12_star_selects_unprevented", "C12_struct_provider_outputs"], "engines": [eng_prog],
             "assumptions": ["field names are ASCII; strconv.Quote and strings.EqualFold are modelled on ASCII identifiers", "FieldsOf name resolution shares checkField; its front end is exercised through the binary only"]},
     "C13": {"theorems": ["C13_whitelist_sound", "C13_whitelist_complete"], "engines": [eng_valuetable, eng_forms, eng_copyprobe, eng_prog],
